@@ -25,7 +25,9 @@ FACTORS = {
     "init": [None, "rate_init", "root_height_init", "heights_init_tree", "brlens_init", "coalescent_init",
              "rate_fixed", "keep", "clockpr_exp", "brlenspr_gammadir", "gmrf_integrated",
              "coalescent_non_centered", "coalescent_integrated", "include_jacobian", "coalescent_temperature",
-             "disable_time_aware"],
+             "disable_time_aware",
+             # explicit initial values close to the boundary of the admissible range
+             "root_height_init_low", "rate_init_tiny", "coalescent_init_tiny", "brlens_init_tiny"],
 }
 
 # the model-defining core enumerated in full in the thorough tier
@@ -65,6 +67,14 @@ def to_argv(cfg, data):
         a += ["--rate_init", "0.002"]
     elif init == "root_height_init":
         a += ["--root_height_init", "7.5"]
+    elif init == "root_height_init_low":
+        a += ["--root_height_init", "4.0001"]      # the oldest tip is 4 time units below the youngest
+    elif init == "rate_init_tiny":
+        a += ["--rate_init", "1e-07"]
+    elif init == "coalescent_init_tiny":
+        a += ["--coalescent_init", "1e-05"]
+    elif init == "brlens_init_tiny":
+        a += ["--brlens_init", "1e-08"]
     elif init == "heights_init_tree":
         a += ["--heights_init", "tree"]
     elif init == "brlens_init":
@@ -103,6 +113,10 @@ INIT_NEEDS = {
     "rate_fixed": lambda c: c["clock"] == "strict",
     "clockpr_exp": lambda c: c["clock"],
     "root_height_init": lambda c: c["clock"],
+    "root_height_init_low": lambda c: c["clock"],
+    "rate_init_tiny": lambda c: c["clock"],
+    "coalescent_init_tiny": lambda c: c["treeprior"] in ("constant", "exponential"),
+    "brlens_init_tiny": lambda c: not c["clock"],
     "heights_init_tree": lambda c: c["clock"],
     "brlens_init": lambda c: not c["clock"],
     "keep": lambda c: True,
@@ -162,6 +176,21 @@ def pairwise(rng, factors=FACTORS, fixed=None):
         rows.append(best)
         need = [(p, x, q, y) for (p, x, q, y) in need if not (best[names[p]] == x and best[names[q]] == y)]
     return rows
+
+
+def core_lite():
+    """every sampler x clock x heights x {no tree prior, constant, skyride}: guarantees that the density identity
+    and the loader are exercised for every clock model under every sub-command even in the quick tier"""
+    for cmd in FACTORS["cmd"]:
+        for clock in FACTORS["clock"]:
+            for heights in FACTORS["heights"]:
+                for tp in (None, "constant", "skyride"):
+                    for init in (None, "root_height_init_low"):
+                        if init and not (clock == "strict" and tp == "constant"):
+                            continue
+                        yield {"cmd": cmd, "model": "HKY", "categories": 1, "invariant": False, "clock": clock,
+                               "heights": heights, "treeprior": tp, "grid": None, "cutoff": None, "family": "meanfield",
+                               "distribution": "Normal", "init": init}
 
 
 def core_product():
